@@ -75,8 +75,25 @@ def run(pid, tier):
                            TSAN_OPTIONS="halt_on_error=0 exitcode=0 report_signal_unsafe=0")
                 r = subprocess.run([drv, str(nthreads), str(nrounds),
                                     prefix], capture_output=True, text=True, timeout=1500, env=env)
-                if r.returncode != 0:
-                    raise Broken("drv_threads (%s) failed rc=%s: %s" % (tname, r.returncode, r.stderr[-1500:]))
+                if r.returncode != 0 or not os.path.exists(prefix + "-alone.ndjson"):
+                    # (under TSan a fatal signal can still end in exit code 0: the missing reference file tells)
+                    # a crash under concurrency is a violation only if the same calls survive a single thread
+                    single = subprocess.run([drv, "1", str(nrounds), prefix + "-single"], capture_output=True,
+                                            text=True, timeout=1500, env=env)
+                    ok1 = single.returncode == 0 and os.path.exists(prefix + "-single-alone.ndjson")
+                    for fn in os.listdir(work):
+                        if fn.startswith(os.path.basename(prefix) + "-"):
+                            os.remove(os.path.join(work, fn))
+                    if not ok1:
+                        raise Broken("drv_threads (%s) failed rc=%s even with one thread: %s"
+                                     % (tname, r.returncode, r.stderr[-1500:]))
+                    crash = os.path.join(work, "crash-%s-%d.ndjson" % (tname, rep))
+                    with open(crash, "w") as o:
+                        o.write('{"e":"Reset"}\n')
+                        o.write(json.dumps({"e": "Crash", "api": "process", "rc": r.returncode, "t": -1,
+                                            "detail": r.stderr[-300:]}) + "\n")
+                    traces.append(crash)
+                    continue
                 nrace = r.stderr.count("WARNING: ThreadSanitizer: data race")
                 if nrace:
                     races.append(r.stderr[:1500])
